@@ -26,6 +26,15 @@ class ModelError(AnalysisError):
     pass
 
 
+class DefiniteShapeError(AnalysisError):
+    """A construct that is not merely outside the modelled subset but wrong whatever the rest of the code does (e.g. an arm of an
+    opcode dispatch chain whose test is not an equality with one opcode). The entry point turns it into a violation of rule
+    <PROP>.<rule> instead of an analysis error."""
+    def __init__(self, rule, modname, qual, construct, message, lineno=0):
+        super().__init__(message)
+        self.rule, self.modname, self.qual, self.construct, self.message, self.lineno = rule, modname, qual, construct, message, lineno
+
+
 # --------------------------------------------------------------------------- loader
 
 class Module:
@@ -96,6 +105,7 @@ class Repo:
             raise AnchorError(f'source root {self.root} not found')
         self.mods = {}
         self.equiv = {}
+        self.equiv_full = {}
         self.consulted = set()
         present = sorted(f[:-3] for f in os.listdir(self.root) if f.endswith('.py'))
         self.present = present
@@ -124,6 +134,7 @@ class Repo:
         if ref.digest == m.digest:
             return
         res = absorb(m, ref)
+        self.equiv_full[name] = res
         if res['equivalent'] or res['absorbed_helpers'] or res['directed']:
             self.equiv[name] = {k: res[k] for k in ('equivalent', 'directed', 'absorbed_helpers')}
 
